@@ -191,6 +191,13 @@ def Spells (tok : Tok) (text : List Nat) : Prop :=
   | .dedent => text = []
   | .endOfFile | .startModule | .startInteractive | .startExpression => False
 
+/-- tokens that neither open/close a bracket nor are layout tokens -/
+def plain : Tok → Bool
+  | .name _ | .int _ | .float _ | .complex _ | .string .. | .comment _ | .kw _ => true
+  | .op .Lpar | .op .Lsqb | .op .Lbrace | .op .Rpar | .op .Rsqb | .op .Rbrace => false
+  | .op _ => true
+  | _ => false
+
 /-! ## gaps -/
 
 /-- what may stand between two tokens of the FULL lexer (comments and non-logical newlines are
@@ -225,11 +232,20 @@ def gapPlain : (inComment : Bool) → List Nat → Bool
   | false, 10 :: r => gapPlain false r
   | false, _ => false
 
-/-- the tokens tile `src` from character index `i` on: every gap between consecutive tokens, and
-    the text after the last token, satisfies `gapOk` -/
-def Tiles (gapOk : List Nat → Prop) (src : List Nat) : Nat → List Spanned → Prop
-  | i, [] => gapOk (src.drop i)
-  | i, t :: ts => i ≤ t.cs ∧ t.cs ≤ t.ce ∧ gapOk ((src.drop i).take (t.cs - i)) ∧ Tiles gapOk src t.ce ts
+/-- `spans` (pairs start/end, ascending) tile the list `l`, whose head has index `base`, up to index
+    `hi`: every gap in front of a span, and the rest up to `hi`, satisfies `G` -/
+def STiles (G : List Nat → Prop) : List Nat → Nat → Nat → List (Nat × Nat) → Prop
+  | l, base, hi, [] => base ≤ hi ∧ G (l.take (hi - base))
+  | l, base, hi, t :: ts =>
+    base ≤ t.1 ∧ t.1 ≤ t.2 ∧ G (l.take (t.1 - base)) ∧ STiles G (l.drop (t.2 - base)) t.2 hi ts
+
+/-- character span of a token -/
+def cspan (t : Spanned) : Nat × Nat := (t.cs, t.ce)
+
+/-- the tokens tile the whole source: the text in front of the first token, between consecutive
+    tokens, and after the last token satisfies `G` -/
+def Tiles (G : List Nat → Prop) (src : List Nat) (toks : List Spanned) : Prop :=
+  STiles G src 0 src.length (toks.map cspan)
 
 /-! ## brackets, NEWLINE, INDENT / DEDENT -/
 
